@@ -3,6 +3,7 @@ import re
 import common as C
 import tmpl
 import order
+import flow
 
 
 def cpp_writer_rules(ck, rule):
@@ -73,9 +74,15 @@ def run(ck, facts):
                   "the enum wrapper's enumerators carry the stored discriminants (shares C11.R1)")
     ck.not_decided += ["value preservation of each of the ~40 conversion expressions for all values", "-std=c++17 vs -std=c++20 compilation"]
 
-    g = tool.fn("cpp::ty::TyGenContext::gen_method_info")
+    g0 = tool.fn("cpp::ty::TyGenContext::gen_method_info")
+
+    def params_loop(f):
+        return next((n for n in C.walk(C.fn_body(f)) if n.get("k") == "for" and any(x.get("k") == "field" and x.get("n") == "params" for x in C.walk(n["iter"]))), None)
+    # the parameter walk may live in a helper gen_method_info delegates to
+    g = order.holder(tool, g0, lambda f: params_loop(f) is not None)
     body = C.fn_body(g)
-    loop = next((n for n in C.walk(body) if n.get("k") == "for" and any(x.get("k") == "field" and x.get("n") == "params" for x in C.walk(n["iter"]))), None)
+    all_bodies = C.bodies_inl(tool, C.fn_body(g0), depth=2)
+    loop = params_loop(g)
     if not loop:
         ck.bad("R1", "gen_method_info/params-loop", "loop over method.params not found", C.loc(g))
     else:
@@ -110,28 +117,48 @@ def run(ck, facts):
             for p in pushes:
                 lits = C.str_lits(p["a"][0])
                 lit = " ".join(lits)
-                lst = C.strip(p["recv"]).get("n")
+                lst = (order.list_name(p["recv"]) or [None])[0]
                 has_check = re.search(r"if\s*\(\s*!\s*diplomat::capi::diplomat_is_str\(\{param\}\.data\(\),\s*\{param\}\.size\(\)\)\s*\)", lit) is not None
                 has_ret = "return diplomat::Err<diplomat::Utf8Error>()" in lit
                 okp = has_check and has_ret
                 detail = "pushes `%s` onto %s" % (lit[:90].replace("\n", " "), lst)
             ck.expect(okp, "R1", "gen_method_info/per-param-validation", detail, "the per-parameter UTF-8 validation is not a self-contained `if (!diplomat_is_str(p.data(), p.size())) return Err<Utf8Error>()`: %s (checks combined later can let a partially invalid argument list reach Rust)" % detail, C.loc(g, cond_if.get("ln")))
-            # the list flows unchanged into MethodInfo.param_validations
+            # the list flows unchanged into MethodInfo.param_validations: directly (same function), or as the field of a record the helper returns and
+            # gen_method_info takes apart
             slot_ok = False
-            for n in C.walk(body):
-                if n.get("k") == "struct" and (n.get("adt") or "").endswith("MethodInfo"):
-                    for fl in n["fields"]:
-                        if fl["n"] == "param_validations":
-                            slot_ok = C.strip(fl["e"]).get("k") == "local" and C.strip(fl["e"]).get("n") == lst
-            joins = [x for x in C.walk(body) if x.get("k") == "mcall" and x.get("m") == "join" and any(y.get("k") == "local" and y.get("n") == lst for y in C.walk(x["recv"]))]
+            lst_local, _, lst_field = (lst or "").partition(".")
+            for b_ in all_bodies:
+                for n in C.walk(b_):
+                    if n.get("k") == "struct" and (n.get("adt") or "").endswith("MethodInfo"):
+                        for fl in n["fields"]:
+                            if fl["n"] != "param_validations":
+                                continue
+                            e = C.strip(fl["e"])
+                            if g is g0 and not lst_field:
+                                slot_ok = e.get("k") == "local" and e.get("n") == lst
+                            elif e.get("k") == "local":
+                                # bound by destructuring the helper's result: `let Rec { <field>: x, .. } = self.helper(..)` / `let r = self.helper(..); r.<field>`
+                                d = dict(flow.defs_of(g0)).get(e.get("id"))
+                                src_calls = {C.norm_path(C.callee(c_) or "") for c_ in C.calls_in(d[1])} if d and d[1] is not None else set()
+                                via_helper = C.norm_path(g["path"]) in src_calls
+                                names_field = d is not None and d[0] == "destructure" and any(
+                                    (fp.get("n") == lst_field) and e.get("id") in C.pat_bind_ids(fp.get("p") or fp)
+                                    for ls in C.walk(C.fn_body(g0)) if ls.get("k") == "letst" and e.get("id") in C.pat_bind_ids(ls["pat"])
+                                    for fp in (ls["pat"].get("fields") or ls["pat"].get("sub") or []))
+                                returned = C.strip(C.fn_body(g).get("e") or {})
+                                slot_ok = via_helper and names_field and returned.get("k") == "local" and returned.get("n") == lst_local
+                            elif e.get("k") == "field":
+                                slot_ok = e.get("n") == lst_field
+            joins = [x for b_ in all_bodies for x in C.walk(b_) if x.get("k") == "mcall" and x.get("m") == "join" and
+                     (lst in order.list_name(x["recv"]) or any(y.get("k") == "local" and y.get("n") == lst for y in C.walk(x["recv"])))]
             ck.expect(slot_ok and not joins, "R1", "gen_method_info/validations-reach-template", "", "the list the validations are pushed onto (%s) is not what MethodInfo.param_validations receives (or is joined into one condition)" % lst, C.loc(g))
             # validation precedes conversion in the same iteration
             items = loop["body"].get("s", []) + ([loop["body"]["e"]] if loop["body"].get("e") else [])
             i_val = next((i for i, s in enumerate(items) if any(cond_if is x for x in C.walk(s))), None)
-            i_conv = next((i for i, s in enumerate(items) if any(x.get("k") == "mcall" and x.get("m") == "push" and C.strip(x["recv"]).get("n") == "cpp_to_c_params" for x in C.walk(s))), None)
+            i_conv = next((i for i, s in enumerate(items) if any(x.get("k") == "mcall" and x.get("m") == "gen_cpp_to_c_for_type" for x in C.walk(s))), None)
             ck.expect(i_val is not None and i_conv is not None, "R1", "gen_method_info/same-iteration", "", "validation and conversion are not produced by the same loop iteration", C.loc(g))
             # the early return type is accounted for: returns_utf8_err wraps the return type
-            wraps = any("diplomat::result<{return_ty}, diplomat::Utf8Error>" in s for s in C.str_lits(body))
+            wraps = any("diplomat::result<{return_ty}, diplomat::Utf8Error>" in s for b_ in all_bodies for s in C.str_lits(b_))
             ck.expect(wraps, "R1", "gen_method_info/return-type-wrapped", "", "methods with validated parameters no longer return diplomat::result<T, Utf8Error>", C.loc(g))
     # ---------------- R2
     toks = tmpl.load("cpp/method_impl.h.jinja", resolve_includes=False)
@@ -140,7 +167,7 @@ def run(ck, facts):
     i_call = re.search(r"⟦\s*m\.abi_name\s*⟧\s*\(", fl)
     ck.expect(i_val >= 0 and i_call is not None and i_val < i_call.start() and re.search(r"⟦\s*validation", fl) is not None, "R2", "method_impl.h/validations-before-call", "", "the C++ method template does not print the validations before calling the native function", "tool/templates/cpp/method_impl.h.jinja")
     # ---------------- R3
-    order.method_param_order(ck, "R3", g, "cpp::gen_method_info")
+    order.method_param_order(ck, "R3", g, "cpp::gen_method_info", unit=tool)
     okw = any(n.get("k") == "if" and C.strip(n["c"]).get("k") == "mcall" and C.strip(n["c"]).get("m") == "is_write" and any(x.get("k") == "mcall" and x.get("m") == "push" and "&write" in C.str_lits(x["a"][0]) for x in C.walk(n["t"])) for n in C.walk(body))
     ck.expect(okw, "R3", "cpp::gen_method_info/write-last", "", "`&write` is not appended under method.output.is_write()", C.loc(g))
     fl_t = fl
